@@ -93,6 +93,7 @@ def run_file(binary, path, env, timeout=120):
 def merge_stats(path):
     """Last line per pid wins; union of distinct hashes."""
     per = {}
+    bad_files = 0
     for fn in glob.glob(path + ".*"):
         if fn.endswith(".tmp"):
             continue
@@ -101,8 +102,9 @@ def merge_stats(path):
                 j = json.loads(f.read())
             per[j["pid"]] = j
         except (json.JSONDecodeError, OSError, KeyError):
+            bad_files += 1
             continue
-    tot = {"evals": 0, "nontrivial": 0, "classes": {}, "samples": [], "distinct": set()}
+    tot = {"evals": 0, "nontrivial": 0, "classes": {}, "samples": [], "distinct": set(), "unparsable_stats_files": bad_files}
     for j in per.values():
         tot["evals"] += j["evals"]
         tot["nontrivial"] += j["nontrivial"]
